@@ -3,10 +3,15 @@
 PROVE  coq/Properties/C04.v: Model/Approvals.v (check_approvals, line for line, over arbitrary lists of
        users and Z counts) against Spec/C04Spec.v (five conjuncts + waiver, counting by witness lists),
        for every input; the two reduction lemmas that justify the enumeration below.
-GEN    Facts_C04.v: the Reactor option registry after gwf.setup({}) (key, privileged, authored), the
-       command-line wiring of the five options check_approvals reads (default under setup({}) and under
-       setup({key: True})), PrAuthorsOptions.BYPASS_LIST, the comparisons of
-       SettingsSchema.validate_inter_settings (from the AST).
+GEN    Facts_C04.v, every fact observed on the running code (no reading of source shapes):
+       the option registry after gwf.setup({}) - keys in registration order, privileged / authored as
+       the real Reactor.handle_options enforces them (NotPrivileged / NotAuthored on a 2x2 credential
+       grid per option); the command-line wiring of the five options check_approvals reads (what the
+       real Reactor.init_settings installs under setup({}) and under setup({key: True})); the per-author
+       bypass list (names the real PrAuthorsOptions.deserialize can switch on); the inter-settings rule
+       (accepted/refused grid of the real bert_e.settings.setup_settings on generated settings files,
+       leaders -1..4 x peers -1..4 x 0..4 project leaders, reduced to its unique smallest set of
+       comparisons).
 CORR   the real check_approvals on a real PullRequestJob object built around stubs
        (bert_e = SimpleNamespace(settings=dict-with-attribute-access), pull_request = SimpleNamespace with
        author / get_participants / get_approvals / get_change_requests / comments).  Options are switched
@@ -22,7 +27,6 @@ CORR   the real check_approvals on a real PullRequestJob object built around stu
 Monitor: extracted spec_passb (proved equivalent to the declarative spec_pass) against the implementation
        on every case.
 """
-import ast
 import json
 import os
 import time
@@ -55,69 +59,198 @@ BYPASSES = OPTION_NAMES[:3]
 
 
 # ------------------------------------------------------------------------------------------- GEN
+# Every fact is OBSERVED on the running code of the tree under test (core.REPO); nothing is read from the
+# shape of its source text, so a rewrite that keeps the behaviour keeps Facts_C04.v byte for byte.
 
-def _expr(node):
-    """data['x'] -> x ; len(data['x']) -> len(x).  Anything else: fail closed."""
-    if (isinstance(node, ast.Subscript) and isinstance(node.value, ast.Name) and node.value.id == 'data'
-            and isinstance(node.slice, ast.Constant) and isinstance(node.slice.value, str)):
-        return node.slice.value
-    if (isinstance(node, ast.Call) and isinstance(node.func, ast.Name) and node.func.id == 'len'
-            and len(node.args) == 1 and not node.keywords):
-        return 'len(%s)' % _expr(node.args[0])
-    raise ValueError('unexpected expression in validate_inter_settings: ' + ast.dump(node)[:120])
+_PROBE_PREFIX = '@probe-robot'
+_SENTINEL = 'zz_probe_not_an_option'
 
 
-_OPS = {ast.Gt: '>', ast.GtE: '>=', ast.Lt: '<', ast.LtE: '<=', ast.Eq: '==', ast.NotEq: '!='}
+def _option_class(reactor, key, privileged, authored):
+    """Class name raised by the real Reactor.handle_options for '<prefix> <key>' at this credential level
+    (None: accepted).  Only NotPrivileged / NotAuthored / NotFound are looked at by the callers; whatever an
+    option handler does to (or raises on) the throw-away job is irrelevant."""
+    job = SimpleNamespace(settings={}, pull_request=SimpleNamespace(id=0, author='probe-author', comments=[]),
+                          bert_e=SimpleNamespace(settings={}), git=SimpleNamespace())
+    try:
+        reactor.handle_options(job, '%s %s' % (_PROBE_PREFIX, key), _PROBE_PREFIX,
+                               privileged=privileged, authored=authored)
+    except Exception as e:          # the class is the observable
+        return type(e).__name__
+    return None
+
+
+def _observed_registry():
+    """[(key, privileged, authored)] in registration order.  The flags are what handle_options enforces:
+    privileged <=> the option is refused with NotPrivileged to an author-level caller,
+    authored   <=> it is refused with NotAuthored to an admin-level caller who is not the author."""
+    from bert_e.reactor import Reactor
+    reactor = Reactor()
+    if _option_class(reactor, _SENTINEL, True, True) != 'NotFound':
+        raise ValueError('an unknown option is not refused with NotFound: the registry cannot be probed')
+    registry = []
+    for key in Reactor.get_options():
+        if not isinstance(key, str):
+            raise ValueError('option key %r is not a string' % (key,))
+        grid = {(p, a): _option_class(reactor, key, p, a) for p in (False, True) for a in (False, True)}
+        if 'NotFound' in grid.values():
+            raise ValueError('registered option %r is not found by handle_options' % key)
+        privileged = grid[(False, True)] == 'NotPrivileged'
+        authored = grid[(True, False)] == 'NotAuthored'
+        # the two flags must explain the whole grid (the refusal chain is: privileged first, then authored)
+        for (p, a), got in grid.items():
+            want = 'NotPrivileged' if privileged and not p else 'NotAuthored' if authored and not a else None
+            if (got if got in ('NotPrivileged', 'NotAuthored') else None) != want:
+                raise ValueError('option %r: refusals %r are not explained by two flags' % (key, grid))
+        registry.append((key, privileged, authored))
+    return registry
+
+
+def _observed_default(key):
+    """job.settings[key] as the real Reactor.init_settings installs it (current registration)."""
+    from bert_e.reactor import Reactor
+    job = SimpleNamespace(settings={})
+    Reactor().init_settings(job)
+    if key not in job.settings:
+        raise ValueError('init_settings does not install %s' % key)
+    return job.settings[key]
+
+
+def _observed_bypass_list(registry_keys):
+    """The per-author bypasses a settings file can grant: the names N for which the real
+    PrAuthorsOptions.deserialize({user: [N]}) yields {user: {N: True, ...}}; a settings file listing any other
+    name is refused or grants nothing.  Order: the keys deserialize builds for a user with an empty list, then
+    registration order for anything granted beyond them."""
+    from bert_e.settings import PrAuthorsOptions
+    user = 'probe-author'
+
+    def granted(listed):
+        try:
+            res = PrAuthorsOptions().deserialize({user: list(listed)})
+        except Exception:
+            return None
+        row = res.get(user, {}) if isinstance(res, dict) else None
+        if not isinstance(row, dict):
+            raise ValueError('PrAuthorsOptions.deserialize returned an unexpected shape: %r' % (res,))
+        return row
+    empty = granted([])
+    if empty is None:
+        raise ValueError('PrAuthorsOptions.deserialize refuses an author without bypasses')
+    if any(v is not False for v in empty.values()):
+        raise ValueError('an author without bypasses is granted something: %r' % (empty,))
+    candidates = list(empty)
+    candidates += [k for k in registry_keys if k not in candidates]
+    if not all(isinstance(k, str) for k in candidates):
+        raise ValueError('BYPASS_LIST has an unexpected shape')
+    out = []
+    for name in candidates + [_SENTINEL]:
+        row = granted([name])
+        on = row is not None and row.get(name, False) is True
+        if row is not None and any(v is True for k, v in row.items() if k != name):
+            raise ValueError('listing %s grants another bypass: %r' % (name, row))
+        if row is not None and not on and name in row:
+            raise ValueError('listing %s is accepted but does not switch it on: %r' % (name, row))
+        if on:
+            out.append(name)
+    if _SENTINEL in out:
+        raise ValueError('any name is accepted as a per-author bypass: the list is not finite')
+    return out
+
+
+_TERMS = ('required_leader_approvals', 'required_peer_approvals', 'len(project_leaders)')
+_CMP = (('>', lambda a, b: a > b), ('>=', lambda a, b: a >= b), ('<', lambda a, b: a < b),
+        ('<=', lambda a, b: a <= b), ('==', lambda a, b: a == b), ('!=', lambda a, b: a != b))
+_GRID = [(rl, rp, n) for rl in range(-1, 5) for rp in range(-1, 5) for n in range(0, 5)]
+_MIN_SETTINGS = {'repository_owner': 'owner', 'repository_slug': 'slug', 'repository_host': 'mock',
+                 'robot': 'probe-robot', 'robot_email': 'robot@example.com'}
+
+
+def _settings_loaders():
+    """Ways of loading a settings file with the real code, outermost entry point first."""
+    import tempfile
+    import bert_e.settings as st
+
+    def by_file(values):
+        import yaml
+        with tempfile.TemporaryDirectory(prefix='c04_settings_') as d:
+            path = os.path.join(d, 'settings.yml')
+            with open(path, 'w') as f:
+                yaml.safe_dump(values, f)
+            return st.setup_settings(path)
+
+    def by_schema(values):
+        return st.SettingsSchema().load(dict(values))
+    return [('setup_settings', by_file), ('SettingsSchema.load', by_schema)]
+
+
+def _settings_refused(loader, rl, rp, n):
+    values = dict(_MIN_SETTINGS, required_leader_approvals=rl, required_peer_approvals=rp,
+                  project_leaders=['leader%d' % i for i in range(n)])
+    try:
+        s = loader(values)
+    except Exception:
+        return True
+    def get(k):
+        return s[k] if isinstance(s, dict) else getattr(s, k)      # the code reads job.settings.<k>
+    if (get('required_leader_approvals'), get('required_peer_approvals'), len(get('project_leaders'))) != (rl, rp, n):
+        raise ValueError('the loaded settings do not carry the probe values %r' % ((rl, rp, n),))
+    return False
 
 
 def _settings_rule():
-    src = open(os.path.join(core.REPO, 'bert_e/settings.py')).read()
-    fns = [n for n in ast.walk(ast.parse(src))
-           if isinstance(n, ast.FunctionDef) and n.name == 'validate_inter_settings']
-    if len(fns) != 1:
-        raise ValueError('validate_inter_settings not found exactly once')
-    rules = []
-    for st in fns[0].body:
-        if isinstance(st, ast.If):
-            t = st.test
-            if isinstance(t, ast.Name) and t.id == 'errors':
-                continue
-            if not (isinstance(t, ast.Compare) and len(t.ops) == 1 and type(t.ops[0]) in _OPS):
-                raise ValueError('unexpected test in validate_inter_settings: ' + ast.dump(t)[:120])
-            sets_error = any(isinstance(s, ast.Assign) and 'errors' in ast.dump(s.targets[0]) for s in st.body)
-            if not sets_error or st.orelse:
-                raise ValueError('a rule of validate_inter_settings does not record an error')
-            rules.append((_expr(t.left), _OPS[type(t.ops[0])], _expr(t.comparators[0])))
-    return rules
+    """The inter-settings rule, from the accepted/refused grid of the real settings loader over
+    required_leader_approvals x required_peer_approvals in -1..4 and 0..4 project leaders: the unique smallest
+    set of comparisons (left term listed before right term in _TERMS) whose union is exactly the refused
+    part of the grid.  Fail closed when the grid is not such a union, or not uniquely."""
+    import itertools
+    refused = None
+    for _name, loader in _settings_loaders():
+        try:
+            grid = frozenset(p for p in _GRID if _settings_refused(loader, *p))
+        except Exception:
+            continue                                       # this entry point cannot be driven: try the next
+        if len(grid) < len(_GRID):                         # it accepts something: this is the loader
+            refused = grid
+            break
+    if refused is None:
+        raise ValueError('no settings loader accepts any settings file of the probe grid')
+    atoms = []
+    for (i, left), (j, right) in itertools.combinations(enumerate(_TERMS), 2):
+        for op, f in _CMP:
+            pts = frozenset(p for p in _GRID if f(p[i], p[j]))
+            if pts and pts <= refused:
+                atoms.append(((left, op, right), pts))
+    for size in range(0, 4):
+        covers = [c for c in itertools.combinations(atoms, size)
+                  if frozenset().union(*[pts for _, pts in c]) == refused]
+        if len(covers) == 1:
+            return [rule for rule, _ in covers[0]]
+        if covers:
+            raise ValueError('the refused settings are described by several rule sets: %r'
+                             % [[r for r, _ in c] for c in covers][:3])
+    raise ValueError('the refused settings are not a union of comparisons between %s' % (_TERMS,))
 
 
 def gen_facts(ctx):
     import bert_e.workflow.gitwaterflow as gwf
-    from bert_e.reactor import Reactor, Option
-    from bert_e.settings import PrAuthorsOptions
     try:
         gwf.setup({})
-        registry = []
-        for key, opt in Reactor.get_options().items():
-            if not isinstance(opt, Option) or type(opt.privileged) is not bool or type(opt.authored) is not bool:
-                raise ValueError('option %r has an unexpected shape: %r' % (key, opt))
-            registry.append((key, opt.privileged, opt.authored))
+        registry = _observed_registry()
+        keys = [k for k, _, _ in registry]
         wiring = []
         for key in OPTION_NAMES:
-            if key not in Reactor.get_options():
+            if key not in keys:
                 continue                      # the pin lemma of Proofs/C04Proofs.v fails on the missing entry
-            d0 = Reactor.get_options()[key].default
+            d0 = _observed_default(key)
             gwf.setup({key: True})
-            d1 = Reactor.get_options()[key].default
+            d1 = _observed_default(key)
             gwf.setup({})
             if type(d0) is not bool or type(d1) is not bool:
                 raise ValueError('default of %s is not a bool: %r / %r' % (key, d0, d1))
             wiring.append((key, d0, d1))
     finally:
         gwf.setup({})
-    bl = PrAuthorsOptions.BYPASS_LIST
-    if not isinstance(bl, (list, tuple)) or not all(isinstance(x, str) for x in bl):
-        raise ValueError('BYPASS_LIST has an unexpected shape')
+    bl = _observed_bypass_list(keys)
     rules = _settings_rule()
     text = '''(* GENERATED on every run by harness/props/c04.py from %s - do not edit *)
 From Coq Require Import List String Bool.
